@@ -2404,3 +2404,14 @@ Example ex_stale_read :
   let st := fst (run (init 6 ex_cols) ops) in
   fst (read (s_levels st) 3) <> fst (read (s_levels (fst (step st (3,1,0,0,0)))) 3).
 Proof. vm_compute. discriminate. Qed.
+
+
+(* a read with an explicit dtype leaves the same state as a plain read: the
+   cast does not reach the cache, later reads return what they would have *)
+Theorem cast_read_same_state st b c d :
+  fst (step st (3, 2, b, c, d)) = fst (step st (3, 2, b, c, 0)).
+Proof.
+  unfold step. cbn [Z.eqb Pos.eqb].
+  destruct (read_at (s_levels st) (pos_of (s_levels st) b) (Z.to_nat (c mod 5)))
+    as [v ls']. reflexivity.
+Qed.
